@@ -29,6 +29,8 @@ def run(check):
 
     check.run_rule('C02.R1', lambda c: rule_embed_buckets(c, model(), {
         'kinds': 'C02.R1', 'clear_must': 'C02.R2', 'clear_only': 'C02.R2', 'order': 'C02.R6'}))
+    from ..rules_defuse import rule_sentinel_identity
+    check.run_rule('C02.R8', lambda c: rule_sentinel_identity(c, 'C02.R8', ['_signatures'], '-- embed raises IncompatibleSignatures for compatible signatures', floor=6))
     check.run_rule('C02.R3', lambda c: rule_embed_dupes(c, model(), 'C02.R3'))
     check.run_rule('C02.R4', lambda c: rule_embed_flags(c, model(), 'C02.R4'))
 
